@@ -64,6 +64,20 @@ theorem stepTake_conserve {s s' : State} {i : Nat} {pc : TPc} {o : Obj} {add : B
   all_goals (simp only [Option.some.injEq] at hs; subst hs)
   all_goals cons_leaf c h
 
+theorem stepTakePanic_conserve {s s' : State} {i : Nat} {o : Obj} {add : Bool}
+    (h : s.ops[i]? = some (.take .detach o add)) (c : Conserve s)
+    (hs : stepTakePanic s i o = some s') : Conserve s' := by
+  simp only [stepTakePanic, Option.some.injEq] at hs
+  subst hs
+  cons_leaf c h
+
+theorem stepRetPanic_conserve {s s' : State} {i : Nat} {o : Obj}
+    (h : s.ops[i]? = some (.ret .detach o)) (c : Conserve s)
+    (hs : stepRetPanic s i o = some s') : Conserve s' := by
+  simp only [stepRetPanic, Option.some.injEq] at hs
+  subst hs
+  cons_leaf c h
+
 theorem stepResize_conserve {s s' : State} {i n old : Nat} {isClose : Bool} {pc : ZPc}
     (h : s.ops[i]? = some (.resize n isClose pc old)) (c : Conserve s)
     (hs : stepResize s i n isClose pc old = some s') : Conserve s' := by
@@ -148,12 +162,18 @@ theorem stepOp_conserve {s s' : State} {i : Nat} {oc : Outcome} (c : Conserve s)
       simp only at hs
       split at hs
       · exact stepRet_conserve h c hs
-      · simp at hs
+      · split at hs
+        · have := retPanic_pc ‹_›; subst this
+          exact stepRetPanic_conserve h c hs
+        · simp at hs
     | take pc o add =>
       simp only at hs
       split at hs
       · exact stepTake_conserve h c hs
-      · simp at hs
+      · split at hs
+        · have := takePanic_pc ‹_›; subst this
+          exact stepTakePanic_conserve h c hs
+        · simp at hs
     | resize n cl pc old =>
       simp only at hs
       split at hs
